@@ -27,6 +27,11 @@ type Options struct {
 	StrictDev   bool  // forced switches to a non-default goroutine cost 1 too
 	Prefix      []int // explore only below this prefix (sharding)
 	PrefixCost  int
+	// DevFrom/DevTo (virtual ns; both zero: no restriction): schedule and select alternatives are
+	// taken only at points inside this window of virtual time; environment choices always.  The
+	// explored space is then "all schedules with at most Bound deviations, all of them inside the
+	// window" - a way to afford a deeper bound around one instant of a long execution.
+	DevFrom, DevTo int64
 }
 
 // Violation is a failed execution.
@@ -174,6 +179,9 @@ func Explore(sc *Scenario, opt Options) *Stats {
 		var kids []frame
 		for i := len(f.prefix); i < n; i++ {
 			p := r.Trace[i]
+			if (opt.DevFrom != 0 || opt.DevTo != 0) && p.Kind != 'e' && (p.T < opt.DevFrom || p.T > opt.DevTo) {
+				continue
+			}
 			for alt := 1; alt < p.N; alt++ {
 				c := f.cost + p.Cost
 				if opt.Bound >= 0 && c > opt.Bound {
